@@ -597,6 +597,8 @@ class DataLinkConnection(TransmissionControlObject):
                 self.acks_ready.notify_all()
                 send_pdu = pdu.Disconnect(self.peer, self.addr)
                 self.send_queue.append(send_pdu)
+                # an unread I PDU must not be taken for the DM response
+                self.recv_queue.clear()
                 try:
                     super(DataLinkConnection, self).recv()
                 except IndexError:
